@@ -944,3 +944,28 @@ def replay_h_ed_rel(detail):
 
 
 KINDS['h_ed_rel'] = replay_h_ed_rel
+
+
+def replay_h_verify(detail):
+    """(measure, sizes, threshold, operator) -> canonical pair through the public join."""
+    measure = detail['measure']
+    n, m, o, t, op = detail['n'], detail['m'], detail['o'], detail['t'], detail['comp_op']
+    entry = {'JACCARD': 'jaccard_join', 'COSINE': 'cosine_join', 'DICE': 'dice_join',
+             'OVERLAP_COEFFICIENT': 'overlap_coefficient_join'}[measure]
+    lines = ['%s sizes (%d,%d) overlap %d threshold %r op %s; raw score %r' % (
+        measure, n, m, o, t, op, ref.raw_score(measure, n, m, o))]
+    for (a, b) in ((n, m), (m, n)):
+        L, R = _canon_tables(a, b, o)
+        cs = dict(threshold=t, comp_op=op, allow_empty=True, allow_missing=False, out_sim_score=True, n_jobs=1,
+                  l_key='id', r_key='id', l_attr='attr', r_attr='attr', l_out_attrs=None, r_out_attrs=None,
+                  l_out_prefix='l_', r_out_prefix='r_', tok_return_set=True, measure=measure, L=L, R=R,
+                  entry=entry, kind='join')
+        for p in ('C01', 'C02'):
+            ok, text = _check_api(cs, p)
+            if ok:
+                return True, '\n'.join(lines + [text])
+        lines.append(text)
+    return False, '\n'.join(lines)
+
+
+KINDS['h_verify'] = replay_h_verify
